@@ -200,6 +200,16 @@ Definition dispatch (kind : string) (args : list string) : string :=
         end
     | _ => BADARGS
     end
+  else if String.eqb kind "hw" then
+    (* private buffers; the application overwrites every byte slice it gets back by value: nothing may change *)
+    match args with
+    | f :: s :: ops =>
+        match opt_all (map parse_op ops) with
+        | Some l => out3 ("T " ++ show_tr (transcript std_cfg (fresh_run 0 l))) "-" "-"
+        | None => BADARGS
+        end
+    | _ => BADARGS
+    end
   else if String.eqb kind "h" || String.eqb kind "hl" then   (* hl: the harness leaves notifications queued across packets *)
     match args with
     | f :: s :: ops =>
